@@ -9,6 +9,7 @@ import (
 	"strconv"
 	"strings"
 	"sync"
+	"sync/atomic"
 	"testing"
 	"time"
 
@@ -78,6 +79,8 @@ type c07HistResult struct {
 	Writers     int      `json:"writers"`
 	Readers     int      `json:"readers"`
 	RoutesPerRS int      `json:"routes_per_rule_set"`
+	EmptyStart  bool     `json:"empty_start,omitempty"`
+	RejectedAdd int      `json:"rejected_adds_into_empty"`
 }
 
 type c07ChildOut struct {
@@ -122,6 +125,13 @@ func c07Child() {
 		if stress > 0 {
 			nWrites, nReads = 40, stress
 		}
+		// "the repository is empty at the moment of the change": every fourth history has no fixed rule set, so the first
+		// rule set (and every one arriving after all sources were deleted) goes into an empty index; its rule sets are large
+		// to keep the window wide and the readers run from the very start until every writer got its first change through
+		emptyStart := stress == 0 && h%4 == 3
+		if emptyStart {
+			K = []int{200, 300, 400}[h/4%3]
+		}
 		a, err := newRepoApp(false)
 		if err != nil {
 			fmt.Println("child: app start failed:", err)
@@ -130,11 +140,13 @@ func c07Child() {
 		// a rule set that never changes and owns /fixed/:x: updates claiming that expression must be rejected as a whole
 		fixed := &rconfig.RuleSet{Version: "1alpha4", MetaData: rconfig.MetaData{Source: "fixed", Hash: []byte("fixed")}, Rules: []rconfig.Rule{{
 			ID: "fixed", Matcher: rconfig.Matcher{Routes: []rconfig.Route{{Path: "/fixed/:x"}}}, Execute: []config.MechanismConfig{{"authenticator": "anon"}}}}}
-		if err := a.Proc.OnCreated(fixed); err != nil {
-			fmt.Println("child: fixed rule set rejected:", err)
-			os.Exit(3)
+		if !emptyStart {
+			if err := a.Proc.OnCreated(fixed); err != nil {
+				fmt.Println("child: fixed rule set rejected:", err)
+				os.Exit(3)
+			}
 		}
-		res := c07HistResult{Index: h, Writers: W, Readers: R, RoutesPerRS: K}
+		res := c07HistResult{Index: h, Writers: W, Readers: R, RoutesPerRS: K, EmptyStart: emptyStart}
 		var mu sync.Mutex
 		var evs []c07Ev
 		var problems []string
@@ -142,17 +154,51 @@ func c07Child() {
 		record := func(e c07Ev) { mu.Lock(); evs = append(evs, e); mu.Unlock() }
 		problem := func(s string) { mu.Lock(); problems = append(problems, s); mu.Unlock() }
 		final := make([]int, W)
+		// a rule set refused by the index itself (its last rule uses another wildcard name for an expression of its
+		// first rule), for repositories where nothing else is loaded that it could conflict with
+		selfConflicting := func(src, ver int) *rconfig.RuleSet {
+			bad := c07RuleSet(src, ver, K)
+			bad.Rules = append(bad.Rules, rconfig.Rule{ID: fmt.Sprintf("s%d/conflict", src),
+				Matcher: rconfig.Matcher{Routes: []rconfig.Route{{Path: fmt.Sprintf("/s%d/k0/:y", src)}}}, Execute: []config.MechanismConfig{{"authenticator": "anon"}}})
+			return bad
+		}
+		if emptyStart && h%8 == 7 {
+			// the very first change is a rejected one: it must leave no trace in the empty repository
+			if a.Proc.OnCreated(selfConflicting(0, 999)) == nil {
+				problem("conflicting-change-accepted: a first rule set with ambiguous wildcard names for one expression was accepted")
+			} else {
+				res.RejectedAdd++
+				for k := 0; k < K; k++ {
+					if id, _ := find(a.Repo, "GET", fmt.Sprintf("/s0/k%d/zz", k)); id != "" {
+						problem(fmt.Sprintf("rejected-change-left-trace: first rule set of s0 was rejected, but lookup(s0,k%d)=%q", k, id))
+						break
+					}
+				}
+			}
+		}
+		var firstDone atomic.Int32
 		var wg sync.WaitGroup
 		for w := 0; w < W; w++ {
 			wg.Add(1)
 			go func(w int) {
 				defer wg.Done()
+				defer firstDone.Add(1) // also on failure, so that readers terminate
 				wr := rand.New(rand.NewPCG(uint64(seed), uint64(h*1000+w)))
 				cur := 0
 				for i := 1; i <= nWrites; i++ {
 					var err error
 					next := i
-					if cur != 0 && wr.IntN(5) == 0 {
+					if cur == 0 && emptyStart && i > 1 && wr.IntN(4) == 0 {
+						// a creation refused by the index while this source (and possibly every other one) has nothing loaded
+						if a.Proc.OnCreated(selfConflicting(w, 1000+i)) == nil {
+							problem(fmt.Sprintf("conflicting-change-accepted: writer %d: a rule set with ambiguous wildcard names for one expression was accepted", w))
+							return
+						}
+						mu.Lock()
+						rejected++
+						res.RejectedAdd++
+						mu.Unlock()
+					} else if cur != 0 && !emptyStart && wr.IntN(5) == 0 {
 						// a change that cannot be applied (claims an expression owned by another rule set): it must be
 						// rejected as a whole, leave this source at its current version and not disturb later changes
 						bad := c07RuleSet(w, 1000+i, K)
@@ -188,6 +234,9 @@ func c07Child() {
 					}
 					cur = next
 					final[w] = cur
+					if i == 1 {
+						firstDone.Add(1)
+					}
 					record(c07Ev{Client: w, In: c07In{Write: true, Src: w, Ver: next}, Call: c, Ret: ret})
 					if wr.IntN(3) == 0 {
 						time.Sleep(time.Duration(wr.IntN(300)) * time.Microsecond)
@@ -200,7 +249,7 @@ func c07Child() {
 			go func(rd int) {
 				defer wg.Done()
 				rr := rand.New(rand.NewPCG(uint64(seed), uint64(h*1000+500+rd)))
-				for n := 0; n < nReads; n++ {
+				for n := 0; n < nReads || (emptyStart && int(firstDone.Load()) < W && n < 4000); n++ {
 					src, k := rr.IntN(W), rr.IntN(K)
 					c := now()
 					id, _ := find(a.Repo, "GET", fmt.Sprintf("/s%d/k%d/zz", src, k))
@@ -213,7 +262,7 @@ func c07Child() {
 						}
 						ver = v
 					}
-					if stress == 0 || n%50 == 0 {
+					if (stress == 0 && (n < nReads || n%40 == 0)) || (stress > 0 && n%50 == 0) {
 						record(c07Ev{Client: 100 + rd, In: c07In{Src: src, K: k}, Out: ver, Call: c, Ret: ret})
 					}
 				}
@@ -373,6 +422,10 @@ func TestC07(t *testing.T) {
 				r.Count("operations", hr.Ops)
 				r.Count("lookup_update_overlaps", hr.Overlaps)
 				r.Count("rejected_conflicting_updates", hr.Rejected)
+				r.Count("rejected_adds_into_empty_repository", hr.RejectedAdd)
+				if hr.EmptyStart {
+					r.Count("histories_starting_with_empty_repository", 1)
+				}
 				r.Count("histories_"+hr.Verdict, 1)
 				for range hr.PrePost {
 					r.Count("distinct_observed_pairs_during_update", 1)
